@@ -241,7 +241,9 @@ def execute(case):
 
 def _execute(case, rec):
     names, els, E, feed, factory, gfun = _build(case)
-    fed = [x > 0 for x in feed]
+    # "fed" for the degeneracy proposals: amounts that matter next to the largest element total
+    big = max([sum(feed[i] * E[i][j] for i in range(len(feed))) for j in range(len(els))] + [0.0])
+    fed = [x > 1e-10 * big for x in feed]
     N = len(names)
     events, mism, infos = [], [], []
     forms = _forms(case)
@@ -310,7 +312,7 @@ def _execute(case, rec):
             infos.append({'phase': 'history', 'calls': npts + 1, 'temperatures': len(Ts)})
     if exp is not None:
         B, _, _, _ = L.null_basis(E)
-        dep, fz = L.degeneracy_certificates(E, fed)
+        dep, fz = L.degeneracy_certificates(E, [x > 0 for x in feed])
         fzset = sorted(i + 1 for i in range(N)
                        if fz and sum(E[i][j] * fz[j] for j in range(len(els))) > 0)
         # (binding of the harness helpers to the specification: machinery, not a verdict)
@@ -457,6 +459,14 @@ def _input_classes(case):
     return sorted(set(out))
 
 
+def _atoms_fed(case):
+    """Moles of atoms in the feed (all elements)."""
+    sp = case.get('species')
+    if not sp:
+        return sum(case['feed'][i] * sum(THERMDAT_FORMULAS[nm].values()) for i, nm in enumerate(case['names']))
+    return sum(case['feed'][i] * sum(s['formula'].values()) for i, s in enumerate(sp))
+
+
 def _signature(case):
     if case['kind'] == 'thermdat':
         return json.dumps(['t', case['names'], case['feed'], case['points']])
@@ -539,7 +549,10 @@ def run(ctx):
         cases += [c for c in th if c['points']]
         for c in cases:
             if c['kind'] != 'beh':
-                make_forms(c, rnd, full=not ctx.quick)
+                make_forms(c, rnd, full=not ctx.quick and c['kind'] not in ('rand', 'wellcond'))
+                if not ctx.quick and c['kind'] in ('rand', 'wellcond'):
+                    extra = make_forms(dict(c), rnd, full=True)['forms'][2:]
+                    c['forms'] += [f for f in rnd.sample(extra, 2) if f not in c['forms']][:1]
     import time as _time
     _t0 = _time.time()
     results = core.pmap(_safe_execute, cases)
@@ -602,7 +615,8 @@ def run(ctx):
             raise core.MachineryError('a harness witness/certificate did not verify: case %s line(s) %s'
                                       % (case['cid'], idxs[:5]))
         ev = traces[tid][1][idxs[0]]
-        tags = {'kind': case['kind'], 'phase': ev['ev'], 'form': ev.get('form', '')}
+        tags = {'kind': case['kind'], 'phase': ev['ev'], 'form': ev.get('form', ''),
+                'feed': 'micro' if _atoms_fed(case) < 1e-3 else 'regular'}
         if ev['ev'] == 'solve':
             tags.update({'status': ev['status'], 'forced': ev['forced'], 'out': ev['out'], 'how': ev['how']})
         detail = {'event_indices': idxs[:10], 'species': len(case.get('species', case.get('names', []))),
